@@ -492,3 +492,98 @@ def check_countsib(facts):
                     "— a complement loses or gains an interval (e.g. the one ending at U+10FFFF)" % (a[max(0, i - 90):i + 60], b[max(0, i - 90):i + 60]),
                facts.loc(fb))
     return r
+
+
+# ---- UNFOLDSIB ------------------------------------------------------------------------------
+
+def check_unfoldsib(facts):
+    """unicode::unfold_char (unicode mode, table FOLDS, canonicaliser `fold`) and unicode::unfold_uppercase_char (legacy mode,
+    table TO_UPPERCASE, canonicaliser `uppercase`, images filtered through `legacy_canonical`) compute the same thing over
+    their table: every code point whose image equals the canonical form of c. After mapping the table, the canonicaliser
+    and `legacy_canonical(cp, x)` -> x to common tokens the two bodies must be the same tree: in particular both scan
+    *every* range whose image interval contains the canonical form — an extra skip condition in one of them (say "ranges
+    lying before fcp") drops members whose lower case sorts below the upper case (U+00FF/U+0178, U+00B5/U+039C) in one
+    mode only, and the relation stops being symmetric."""
+    r = RuleResult("UNFOLDSIB", " ".join(check_unfoldsib.__doc__.split()))
+    fa, fb = "unicode::unfold_char", "unicode::unfold_uppercase_char"
+    if fa not in facts.hir or fb not in facts.hir:
+        r.error("anchors %s / %s not found" % (fa, fb))
+        return r
+
+    def rw(t):
+        if isinstance(t, tuple):
+            if t and t[0] == "def" and str(t[1]).split("::")[-1] in ("FOLDS", "TO_UPPERCASE"):
+                return ("TABLE",)
+            if t and t[0] == "call" and str(t[1]).split("::")[-1] in ("fold", "uppercase") and len(t[2]) == 1:
+                return ("CANON", rw(t[2][0]))
+            if t and t[0] == "call" and str(t[1]).split("::")[-1] == "legacy_canonical" and len(t[2]) == 2:
+                return rw(t[2][1])
+            return tuple(rw(x) for x in t)
+        return t
+    ta, tb = rw(norm(facts.hir[fa]["body"])), rw(norm(facts.hir[fb]["body"]))
+    key = "unfold_char ~ unfold_uppercase_char"
+    if ta == tb and json.dumps(ta).count('"TABLE"') == 1:
+        r.ok(key, "same scan over the mode's table")
+        r.sample({"siblings": [fa, fb], "normal_form": json.dumps(ta)[:300]})
+    else:
+        a, b = json.dumps(ta), json.dumps(tb)
+        i = next((i for i, (x, y) in enumerate(zip(a, b)) if x != y), min(len(a), len(b)))
+        r.fail(key, "the unicode and the legacy unfold differ beyond table / canonicaliser: near …%s… vs …%s… — one mode skips ranges (or "
+                    "accepts images) the other does not, so /x/i and /X/i stop agreeing in that mode" % (
+                        a[max(0, i - 100):i + 80], b[max(0, i - 100):i + 80]), facts.loc(fb))
+    return r
+
+
+# ---- SURRSIB --------------------------------------------------------------------------------
+
+def check_surrsib(facts):
+    """Utf16Input::is_high_surrogate and is_low_surrogate are the same range test over their own pair of constants
+    (HIGH_START..=HIGH_END, LOW_START..=LOW_END, which tile U+D800..=U+DFFF). After mapping the constants to START / END the
+    two bodies must be the same tree, and the four constants must be 0xD800 <= .. adjacent .. <= 0xDFFF. One predicate written
+    with an exclusive upper bound stops pairing code points at or above U+10FC00 (high) or every ..FF low surrogate."""
+    r = RuleResult("SURRSIB", " ".join(check_surrsib.__doc__.split()))
+    hi = [n for n in facts.hir if n.endswith("Utf16Input::<'a>::is_high_surrogate") or n.endswith("Utf16Input::is_high_surrogate")]
+    lo = [n for n in facts.hir if n.endswith("Utf16Input::<'a>::is_low_surrogate") or n.endswith("Utf16Input::is_low_surrogate")]
+    if not hi or not lo:
+        r.error("anchors Utf16Input::is_high_surrogate / is_low_surrogate not found (utf16 configuration)")
+        return r
+
+    def rw(t):
+        if isinstance(t, tuple):
+            if t and t[0] == "def":
+                last = str(t[1]).split("::")[-1]
+                if last.startswith("SURROGATE_") and last.endswith("_START"):
+                    return ("START",)
+                if last.startswith("SURROGATE_") and last.endswith("_END"):
+                    return ("END",)
+            return tuple(rw(x) for x in t)
+        return t
+    ta, tb = rw(norm(facts.hir[hi[0]]["body"])), rw(norm(facts.hir[lo[0]]["body"]))
+    key = "is_high_surrogate ~ is_low_surrogate"
+    sa = json.dumps(ta)
+    excl = '"std::ops::Range"' in sa or re.search(r'\["bin", "<", \[[^\]]*\], \["END"\]\]', sa) or re.search(r'\["bin", ">", \["END"\]', sa)
+    if ta == tb and excl:
+        r.fail(key, "both surrogate predicates use an exclusive upper bound although *_END is the last surrogate of its half: %s" % sa[:200],
+               facts.loc(hi[0]))
+    elif ta == tb and '"START"' in sa and '"END"' in sa:
+        r.ok(key, sa[:160])
+        r.sample({"siblings": [hi[0], lo[0]], "normal_form": sa[:200]})
+    else:
+        r.fail(key, "the two surrogate predicates are not the same test over their own constants: %s vs %s — one of them has a different "
+                    "(exclusive / shifted) bound" % (sa[:200], json.dumps(tb)[:200]), facts.loc(hi[0]))
+    # the constants
+    vals = {}
+    for name, c in facts.consts.items():
+        m = re.search(r"SURROGATE_(HIGH|LOW)_(START|END)$", name)
+        v = c.get("eval", c.get("int")) if isinstance(c, dict) else None
+        if m and isinstance(v, int):
+            vals[(m.group(1), m.group(2))] = v
+    if len(vals) == 4:
+        okc = vals[("HIGH", "START")] == 0xD800 and vals[("HIGH", "END")] + 1 == vals[("LOW", "START")] and vals[("LOW", "END")] == 0xDFFF \
+            and vals[("HIGH", "END")] - vals[("HIGH", "START")] == vals[("LOW", "END")] - vals[("LOW", "START")]
+        if okc:
+            r.ok("surrogate constants tile U+D800..=U+DFFF", str(sorted(vals.items())))
+        else:
+            r.fail("surrogate constants tile U+D800..=U+DFFF", "the surrogate bounds %s do not tile U+D800..=U+DFFF in two equal halves" % sorted(vals.items()),
+                   facts.loc(hi[0]))
+    return r
